@@ -95,13 +95,13 @@ class StripWhitespaceFilter:
 
     @staticmethod
     def _stripws_default(tlist):
+        # whitespace that starts a list is looked at together with the token
+        # in front of that list, see process()
         last_was_ws = False
-        is_first_char = True
         for token in tlist.tokens:
             if token.is_whitespace:
-                token.value = '' if last_was_ws or is_first_char else ' '
+                token.value = '' if last_was_ws else ' '
             last_was_ws = token.is_whitespace
-            is_first_char = False
 
     def _stripws_identifierlist(self, tlist):
         # Removes newlines before commas, see issue140
@@ -136,12 +136,14 @@ class StripWhitespaceFilter:
         self._stripws(stmt)
         if depth == 0:
             # whitespace at the border of a group has its neighbour in
-            # another token list
+            # another token list: nothing is needed at the start of the
+            # statement, behind other whitespace and behind "("
             last_was_ws = True
             for token in stmt.flatten():
                 if token.is_whitespace and last_was_ws:
                     token.value = ''
-                last_was_ws = token.is_whitespace
+                last_was_ws = (token.is_whitespace
+                               or token.match(T.Punctuation, '('))
             while stmt.tokens and stmt.tokens[-1].is_whitespace:
                 stmt.tokens.pop(-1)
         return stmt
